@@ -110,6 +110,18 @@ func Gen(t *rapid.T, big bool) Case {
 		}
 		c.Ops = append(c.Ops, op)
 	}
+	clamp(&c)
+	c.KeepStalled = rapid.Bool().Draw(t, "keepstalled")
+	c.FailSend = rapid.SliceOfNDistinct(rapid.IntRange(0, 10), 0, 4, rapid.ID[int]).Draw(t, "failsend")
+	if rapid.IntRange(0, 3).Draw(t, "hasfc") == 0 {
+		c.FailConn = rapid.SliceOfNDistinct(rapid.IntRange(0, 6), 1, 3, rapid.ID[int]).Draw(t, "failconn")
+	}
+	return c
+}
+
+// clamp shrinks transactions so that each fits under both memory limits (a reservation larger than a
+// limit can never be granted; the callers of the allocator never make one).
+func clamp(c *Case) {
 	for i := range c.Ops {
 		tot := uint64(0)
 		for j := range c.Ops[i].Tx {
@@ -127,12 +139,6 @@ func Gen(t *rapid.T, big bool) Case {
 			tot += sz
 		}
 	}
-	c.KeepStalled = rapid.Bool().Draw(t, "keepstalled")
-	c.FailSend = rapid.SliceOfNDistinct(rapid.IntRange(0, 10), 0, 4, rapid.ID[int]).Draw(t, "failsend")
-	if rapid.IntRange(0, 3).Draw(t, "hasfc") == 0 {
-		c.FailConn = rapid.SliceOfNDistinct(rapid.IntRange(0, 6), 1, 3, rapid.ID[int]).Draw(t, "failconn")
-	}
-	return c
 }
 
 // ---- recording wrappers ----
@@ -251,6 +257,8 @@ type Obs struct {
 	FinalAllocated              map[peer.ID]uint64
 	FinalTotal                  uint64
 	FinalPending                int
+	ExitWhileBuilding           bool // a queue finished winding down while a message for its peer was waiting for memory or being built
+	EventsAtFinal               int // allocator events recorded up to the final observation (the teardown that follows releases every peer)
 	IdleViolations              []string          // allocation non-zero while the queue was idle
 	WireOrder                   map[peer.ID][]int // marker sequence numbers as they reached SendMsg
 	QueuedOrder                 map[peer.ID][]int
@@ -284,9 +292,30 @@ type handler struct {
 	obs  *Obs
 	seq  int
 	atts map[*messagequeue.Builder]map[graphsync.RequestID]*Attachment
+	prog *inProgress
+}
+
+// inProgress counts, per peer, the AllocateAndBuildMessage calls that have been made and not returned yet
+// (waiting for their reservation, or building).
+type inProgress struct {
+	mu sync.Mutex
+	n  map[peer.ID]int
+}
+
+func (ip *inProgress) add(p peer.ID, d int) {
+	ip.mu.Lock()
+	ip.n[p] += d
+	ip.mu.Unlock()
+}
+func (ip *inProgress) get(p peer.ID) int {
+	ip.mu.Lock()
+	defer ip.mu.Unlock()
+	return ip.n[p]
 }
 
 func (h *handler) AllocateAndBuildMessage(p peer.ID, size uint64, fn func(*messagequeue.Builder)) {
+	h.prog.add(p, 1)
+	defer h.prog.add(p, -1)
 	h.pm.AllocateAndBuildMessage(p, size, func(b *messagequeue.Builder) {
 		h.obs.Alloc.mu.Lock()
 		failed := h.obs.Alloc.lastFailed[p]
@@ -408,6 +437,7 @@ func Run(t *testing.T, c Case) *Obs {
 		alloc := &recAlloc{inner: allocator.NewAllocator(c.Total, c.PerPeer), lastFailed: map[peer.ID]bool{}}
 		obs.Alloc = alloc
 		qn := 0
+		prog := &inProgress{n: map[peer.ID]int{}}
 		pm := peermanager.NewMessageManager(ctx, func(ctx context.Context, p peer.ID, onShutdown func(peer.ID)) peermanager.PeerQueue {
 			rec := &queueRec{Peer: p, N: qn}
 			qn++
@@ -420,6 +450,9 @@ func Run(t *testing.T, c Case) *Obs {
 				}
 			}
 			q := messagequeue.New(ctx, p, self, alloc, c.Retries, 10*time.Minute, func(p peer.ID) {
+				if prog.get(p) > 0 {
+					obs.ExitWhileBuilding = true
+				}
 				rec.Callback = true
 				onShutdown(p)
 			})
@@ -429,7 +462,7 @@ func Run(t *testing.T, c Case) *Obs {
 		})
 		adapter := &connAdapter{pm: pm, refs: map[peer.ID]int{}}
 		self.SetDelegate(adapter)
-		h := &handler{pm: pm, obs: obs, atts: map[*messagequeue.Builder]map[graphsync.RequestID]*Attachment{}}
+		h := &handler{prog: prog, pm: pm, obs: obs, atts: map[*messagequeue.Builder]map[graphsync.RequestID]*Attachment{}}
 		ra := responseassembler.New(ctx, h)
 		// per (peer, request) worker executing transactions in order (as one executor would)
 		type work struct {
@@ -590,6 +623,9 @@ func Run(t *testing.T, c Case) *Obs {
 			}
 		}
 		obs.FinalTotal = alloc.inner.Stats().TotalAllocatedAllPeers
+		alloc.mu.Lock()
+		obs.EventsAtFinal = len(alloc.Events)
+		alloc.mu.Unlock()
 		// teardown
 		for _, ch := range chans {
 			close(ch)
@@ -666,8 +702,16 @@ func Classify(v interface{ Label(string) }, c Case, o *Obs) {
 // while memory is reserved, or still being reserved, for a builder it has not been handed yet --
 // observed as ReleasePeerMemory finding memory still held, or as a reservation answered with an error.
 func (o *Obs) LateBuildClass() bool {
-	for _, e := range o.Alloc.Events {
-		if e.Kind == "failed" || (e.Kind == "releasepeer" && e.Held > 0) {
+	if o.ExitWhileBuilding {
+		return true
+	}
+	evs := o.Alloc.Events
+	if o.EventsAtFinal > 0 && o.EventsAtFinal <= len(evs) {
+		evs = evs[:o.EventsAtFinal] // what the harness's own teardown releases says nothing about the history
+	}
+	for _, e := range evs {
+		// a reservation answered with an error: the peer's memory was released (its queue exited) while it waited
+		if e.Kind == "failed" {
 			return true
 		}
 	}
@@ -724,6 +768,82 @@ func GenWindDown(t *rapid.T) Case {
 	c.FailSend = rapid.SliceOfNDistinct(rapid.IntRange(0, 8), 0, 2, rapid.ID[int]).Draw(t, "failsend")
 	if rapid.IntRange(0, 4).Draw(t, "hasfc") == 0 {
 		c.FailConn = rapid.SliceOfNDistinct(rapid.IntRange(0, 8), 1, 2, rapid.ID[int]).Draw(t, "failconn")
+	}
+	return c
+}
+
+// GenFailBurst draws histories built around a send that fails as often as the queue retries it (the
+// queue keeps running and discards the rest of the failed request) while further transactions of the
+// same request are queued behind it or still wait for memory.
+func GenFailBurst(t *rapid.T) Case {
+	c := Case{Retries: rapid.IntRange(1, 2).Draw(t, "retries")}
+	p := rapid.IntRange(0, NPeers-1).Draw(t, "peer")
+	req := rapid.IntRange(0, NReqs-1).Draw(t, "req")
+	first := rapid.SampledFrom([]int{400, 900, 1900}).Draw(t, "first")
+	if rapid.Bool().Draw(t, "pressure") {
+		// the first message nearly fills the peer's allowance: what follows waits for memory
+		c.PerPeer, c.Total = uint64(first)+uint64(rapid.SampledFrom([]int{100, 600}).Draw(t, "room")), 1000000
+	} else {
+		c.PerPeer, c.Total = 1000000, 1000000
+	}
+	part := func(r int) Op {
+		op := Op{K: "tx", Peer: p, Req: r}
+		n := rapid.IntRange(1, 2).Draw(t, "ntx")
+		for i := 0; i < n; i++ {
+			switch rapid.IntRange(0, 3).Draw(t, "txk") {
+			case 0:
+				op.Tx = append(op.Tx, TxOp{K: "status"})
+			case 1, 2:
+				op.Tx = append(op.Tx, TxOp{K: "ext", Size: rapid.SampledFrom([]int{10, 300, 500}).Draw(t, "esize")})
+			default:
+				op.Tx = append(op.Tx, TxOp{K: "block", Size: rapid.SampledFrom([]int{1, 400, 500}).Draw(t, "bsize")})
+			}
+		}
+		return op
+	}
+	maybe := func(op Op) {
+		if rapid.IntRange(0, 2).Draw(t, "maybe") > 0 {
+			c.Ops = append(c.Ops, op)
+		}
+	}
+	maybe(Op{K: "connect", Peer: p})
+	c.Ops = append(c.Ops, Op{K: "tx", Peer: p, Req: req, Tx: []TxOp{{K: "block", Size: first}}})
+	c.Ops = append(c.Ops, part(req))
+	maybe(part(req))
+	maybe(part((req + 1) % NReqs))
+	maybe(Op{K: "tx", Peer: 1 - p, Req: 0, Tx: []TxOp{{K: "block", Size: 400}}})
+	maybe(part(req))
+	c.Ops = append(c.Ops, Op{K: "wait", Peer: p})
+	for i := 0; i < c.Retries; i++ {
+		c.FailSend = append(c.FailSend, i)
+	}
+	if rapid.IntRange(0, 3).Draw(t, "morefail") == 0 {
+		c.FailSend = append(c.FailSend, c.Retries+rapid.IntRange(0, 3).Draw(t, "later"))
+	}
+	clamp(&c)
+	return c
+}
+
+// GenBacklog draws histories in which several full-size messages pile up behind a stalled send, so that
+// later parts have to be placed relative to earlier, partly filled messages.
+func GenBacklog(t *rapid.T) Case {
+	c := Case{Retries: rapid.IntRange(1, 2).Draw(t, "retries"), PerPeer: 64 << 20, Total: 256 << 20}
+	p := rapid.IntRange(0, NPeers-1).Draw(t, "peer")
+	c.Ops = append(c.Ops, Op{K: "connect", Peer: p})
+	c.Ops = append(c.Ops, Op{K: "stall", Peer: p})
+	c.Ops = append(c.Ops, Op{K: "tx", Peer: p, Req: 0, Tx: []TxOp{{K: "block", Size: 100}}})
+	n := rapid.IntRange(2, 6).Draw(t, "nparts")
+	for i := 0; i < n; i++ {
+		sz := rapid.SampledFrom([]int{60 * 1024, 100 * 1024, 250 * 1024, 300 * 1024, 400 * 1024, 500 * 1024}).Draw(t, "bsize")
+		c.Ops = append(c.Ops, Op{K: "tx", Peer: p, Req: rapid.IntRange(0, NReqs-1).Draw(t, "req"), Tx: []TxOp{{K: "block", Size: sz}}})
+	}
+	if rapid.IntRange(0, 2).Draw(t, "disc") == 0 {
+		c.Ops = append(c.Ops, Op{K: "disconnect", Peer: p})
+	}
+	c.Ops = append(c.Ops, Op{K: "unstall", Peer: p})
+	c.Ops = append(c.Ops, Op{K: "wait", Peer: p})
+	if rapid.IntRange(0, 3).Draw(t, "fail") == 0 {
+		c.FailSend = []int{rapid.IntRange(0, 3).Draw(t, "failidx")}
 	}
 	return c
 }
